@@ -132,6 +132,16 @@ fn check(case: &Case, obs: &mut Obs) -> Verdict {
                 } else {
                     &lines[..]
                 };
+                // fill must agree: the indent line (second-paragraph mode), then the paragraph without trailing spaces
+                let filled = textwrap::fill(&text, ow.build());
+                obs.calls += 1;
+                let want_filled = if second { format!("{}{}{}", o.ii, o.le(), want) } else { want.clone() };
+                if filled != want_filled {
+                    return Verdict::Violated(format!(
+                        "{}paragraph {:?} (display width {} + indent {}) fits width {} but fill returned {:?} instead of {:?}",
+                        if second { "second " } else { "" }, p, dw(p), dw(ind), w, filled, want_filled
+                    ));
+                }
                 if got.len() != 1 || got[0] != want {
                     return Verdict::Violated(format!(
                         "{}paragraph {:?} (display width {} + indent {}) fits width {} but wrap returned {:?} instead of [{:?}]",
@@ -159,6 +169,20 @@ fn check(case: &Case, obs: &mut Obs) -> Verdict {
                 !p.is_empty() && slow > 0,
                 h(&[0, o.shape(), second as u64, bucket(hi - lo), (p.len() > dw(p)) as u64, p.contains('\u{1b}') as u64, p.ends_with(' ') as u64, p.starts_with(' ') as u64]),
             )
+        }
+        "fits_large" => {
+            let line = case.t(0);
+            let want = line.trim_end_matches(' ').to_string();
+            let lines = textwrap::wrap(line, o.build());
+            let filled = textwrap::fill(line, o.build());
+            obs.calls += 2;
+            if textwrap::core::display_width(line) <= o.width && clean_ansi(line) && !line.contains('\n') && o.split != Split::Custom && (lines.len() != 1 || lines[0] != want || filled != want) {
+                return Verdict::Violated(format!(
+                    "a paragraph of {} bytes / {} columns fits width {} but wrap returned {} line(s) and fill {} bytes (expected one line of {} bytes)",
+                    line.len(), textwrap::core::display_width(line), o.width, lines.len(), filled.len(), want.len()
+                ));
+            }
+            Verdict::held(true, h(&[9, o.shape()]))
         }
         "diff_line" => {
             let line = case.t(0);
@@ -268,6 +292,26 @@ fn extra(cfg: &RunCfg, w: &mut Worker) {
                     let mut o = g.clone();
                     o.width = width;
                     w.run_case(&Case::new("diff_fill").text(big.clone()).opt(o));
+                }
+                // a long single paragraph that fits: wrap / fill at widths around the display width and the byte length
+                {
+                    let line: String = big.replace('\n', " ");
+                    let dwl = textwrap::core::display_width(&line);
+                    let want = line.trim_end_matches(' ').to_string();
+                    for width in [dwl, dwl + 1, line.len().saturating_sub(1), line.len(), line.len() + 1, line.len() + 7] {
+                        if width < dwl {
+                            continue;
+                        }
+                        let mut o = g.clone();
+                        o.width = width;
+                        let lines = textwrap::wrap(&line, o.build());
+                        let filled = textwrap::fill(&line, o.build());
+                        w.stats.calls += 2;
+                        if lines.len() != 1 || lines[0] != want || filled != want {
+                            // record through the normal path with a replayable case
+                            w.run_case(&Case::new("fits_large").text(line.clone()).opt(o));
+                        }
+                    }
                 }
                 // one long single line that fits: sweep-like check at a single width beyond the byte length
                 let line: String = big.replace('\n', " ");
